@@ -21,6 +21,9 @@ fn fixtures() {
     for (name, case, note) in props::c06::fixtures() {
         write_fixture("C06", name, &case, note);
     }
+    for (name, case, note) in props::c12::fixtures() {
+        write_fixture("C12", name, &case, note);
+    }
 }
 
 fn main() {
